@@ -21,7 +21,7 @@ ASSUMPTIONS = ["text is handled as UTF-8 octets in the model; parameters are val
                "RSA-SHA1 is a primitive (cryptography) — not modelled; HMAC-SHA1 is computed natively in Lean and compared",
                "header rendering/parsing (parse_http_list/parse_keqv_list) is exercised end-to-end, not modelled"]
 
-METHODS = ["GET", "post", "DELETE"]
+METHODS = ["GET", "post", "DELETE", "PATCH", "PUT"]
 URLS = ["https://Example.com/p", "HTTPS://EXAMPLE.COM:443/p", "https://example.com:8443/p", "http://example.com:80/a/b", "http://example.com:443/x",
         "https://example.com:80/x", "https://example.com", "https://example.com/", "https://example.com/a%20b/c", "https://example.com/p;v=1",
         "http://localhost:8080/r"]
@@ -163,11 +163,38 @@ def verify(c, r):
         return "raised:" + type(e).__name__
 
 
+def flask_verify(c, method, uri, headers, body):
+    """the same wire request through the Flask integration's entry point (flask_oauth1.ResourceProtector as a route decorator)"""
+    from flask import Flask
+    from authlib.integrations.flask_oauth1 import ResourceProtector
+    priv, pub = rsa_keys()
+    app = Flask("c11-flask")
+    app.config["PROPAGATE_EXCEPTIONS"] = True
+    app.config["OAUTH1_SUPPORTED_SIGNATURE_METHODS"] = list(SIGMETHODS)
+    rp = ResourceProtector(app, query_client=lambda cid: _C(c["cs"], pub), query_token=lambda cid, t: _T(c["ts"]), exists_nonce=lambda *a: False)
+    rp.EXPIRY_TIME = 0          # (the cases are signed at a fixed instant; the timestamp window is C12's subject)
+
+    @rp()
+    def view(p=""):
+        return "served"
+    allm = ["GET", "POST", "PUT", "PATCH", "DELETE"]
+    app.add_url_rule("/", "root", view, methods=allm)
+    app.add_url_rule("/<path:p>", "any", view, methods=allm)
+    u = urlparse(uri)
+    hdrs = {k: v for k, v in headers.items() if k.lower() in ("authorization", "content-type")}
+    try:
+        r = app.test_client().open(path=(u.path or "/") + (";" + u.params if u.params else ""), query_string=u.query, method=method.upper(), base_url=f"{u.scheme}://{u.netloc}", headers=hdrs,
+                                   data=body if body else None)
+        return True if r.status_code == 200 else (r.get_json(silent=True) or {}).get("error", str(r.status_code))
+    except Exception as e:
+        return "raised:" + type(e).__name__
+
+
 def mutations(c, method, uri, headers, body):
     """single-field mutations of the signed request as the server receives it"""
     u = urlparse(uri)
     out = []
-    out.append(("method", ("PUT", uri, headers, body, None, None)))
+    out.append(("method", ("PUT" if method.upper() != "PUT" else "POST", uri, headers, body, None, None)))
     out.append(("scheme", (method, urlunparse(u._replace(scheme="http" if u.scheme.lower() == "https" else "https")), headers, body, None, None)))
     if "Host" not in headers:
         out.append(("host", (method, urlunparse(u._replace(netloc="evil." + u.netloc)), headers, body, None, None)))
@@ -227,6 +254,9 @@ def impl(c):
             elif ok is not False:
                 acc.append(name + "!" + str(ok))
     out["tamper_accepted"] = acc
+    # the Flask entry point (token requests only: a protected resource needs a token; the authority as the test transport carries it)
+    if c["token"] and not c["host"] and uri.startswith(("https://example.com", "http://example.com", "http://localhost")):
+        out["flask_verified"] = flask_verify(c, method, uri, headers, body)
     out["ref_base"] = ref_base_string(method, uri, headers, body).encode().hex()
     # what the model needs: the server-side view
     u = urlparse(uri)
@@ -309,6 +339,9 @@ def oracle(c, out):
     sig = {"place": c["place"], "sigmethod": c["sig"]}
     if out["verified"] is not True:
         v.append((f"request signed by the library's client does not verify on the library's server ({out['verified']})", dict(sig, kind="client-server-disagree")))
+    if out["verified"] is True and out.get("flask_verified", True) is not True:
+        v.append((f"{c['method']} request signed by the library's client ({c['place']} placement, body {c['body']!r}) verifies on the core server but the Flask resource protector answers {out['flask_verified']}",
+                  dict(sig, kind="client-server-disagree", fw="flask")))
     if out["placement"] != c["place"]:
         v.append((f"server saw signature type {out['placement']}, client used {c['place']}", dict(sig, kind="placement")))
     if out["base"] != out["ref_base"]:
